@@ -63,6 +63,11 @@ def check(tier, seed, t0):
         what = []
         if not (e["runaway"]["exit"] == 1 and e["runaway"]["depth_error"]):
             what.append("runaway program ended with exit status %s instead of the call-depth error" % e["runaway"]["exit"])
+        sm = e.get("stdin_mode", {})
+        if sm and not (sm["runaway_exit"] == 1 and sm["runaway_depth_error"]):
+            what.append("runaway program given on standard input (blots -e) ended with exit status %s instead of the call-depth error" % sm["runaway_exit"])
+        if sm and not sm["finite_ok"]:
+            what.append("recursion a few hundred calls deep given on standard input did not complete (exit %s)" % sm["finite_exit"])
         if not e["finite"]["ok"]:
             what.append("recursion a few hundred calls deep did not complete (exit %s)" % e["finite"]["exit"])
         if not what:
